@@ -7,6 +7,9 @@ package zzvrt
 import (
 	"encoding/json"
 	"fmt"
+	"go/ast"
+	"go/parser"
+	"go/token"
 	"math"
 	"math/big"
 	"os"
@@ -329,6 +332,33 @@ func nativeCompareDecls(a, b, mode string) (string, bool) {
 	_ = os.WriteFile(outFile(fmt.Sprintf("cmp_%d_mode.txt", nCmp)), []byte(mode), 0o644)
 	nCmp++
 	return compareDeclsNative(a, b, mode)
+}
+
+// MethodTypes: receiver type names of the declarations of method in src.
+func MethodTypes(src, method string) []string {
+	fset := token.NewFileSet()
+	f, err := parser.ParseFile(fset, "src.go", src, parser.SkipObjectResolution)
+	if err != nil {
+		return nil
+	}
+	seen := map[string]bool{}
+	var out []string
+	for _, d := range f.Decls {
+		fd, ok := d.(*ast.FuncDecl)
+		if !ok || fd.Recv == nil || fd.Name.Name != method || len(fd.Recv.List) != 1 {
+			continue
+		}
+		t := fd.Recv.List[0].Type
+		if st, ok := t.(*ast.StarExpr); ok {
+			t = st.X
+		}
+		if id, ok := t.(*ast.Ident); ok && !seen[id.Name] {
+			seen[id.Name] = true
+			out = append(out, id.Name)
+		}
+	}
+	sort.Strings(out)
+	return out
 }
 
 // ---- the CLI as a unit (native edition) ----
